@@ -277,6 +277,14 @@ class HierDictDocument(DictDocument):
                     else:
                         retval = inst
 
+                    # what came as bytes was not text yet when the string
+                    # constraints were checked above
+                    if (validator is self.SOFT_VALIDATION
+                                and not isinstance(inst, six.string_types)
+                                and isinstance(retval, six.string_types)
+                                and not cls.validate_string(cls, retval)):
+                        raise ValidationError([key, retval])
+
                 else:
                     retval = self._from_leaf(key, cls, inst)
 
